@@ -15,6 +15,8 @@ mod raw;
 
 pub use runtime::{Appender, Config, Logger, Root};
 
+#[cfg(all(feature = "config_parsing", feature = "verif_hooks"))]
+pub use self::file::verif_init_file_with_handle;
 #[cfg(feature = "config_parsing")]
 pub use self::file::{init_file, load_config_file, FormatError};
 #[cfg(feature = "config_parsing")]
